@@ -42,6 +42,7 @@ def main():
     ap.add_argument("--dir", default=str(VERIF / "seeded"))
     ap.add_argument("--props", default="")
     ap.add_argument("--all-props", action="store_true")
+    ap.add_argument("--verbose", "-v", action="store_true", help="also print the rules of other properties that fired")
     ap.add_argument("ids", nargs="*")
     a = ap.parse_args()
     base = Path(a.dir)
@@ -65,6 +66,11 @@ def main():
             if own is not None:
                 for l in own[1]:
                     print("      " + l.strip()[:160])
+            if a.verbose:
+                for p, v in res.items():
+                    if p != prop and isinstance(v, tuple) and v[0] != 0:
+                        for l in v[1][:2]:
+                            print(f"      [{p}] " + l.strip()[:200])
             if "apply" in res:
                 print("      ", res["apply"])
     print(f"not caught: {missed}/{len(seeds)}")
